@@ -507,46 +507,60 @@ func runC16R9(c *eng.Ctx, r *eng.RuleCtx) {
 	c.Touch(v)
 	vinfo := v.Pkg.TypesInfo
 	vg := p.GraphOf(v)
-	enforced := map[actionField]bool{}
-	for _, n := range vg.Nodes {
+	// enforced(action a, field F): assuming Action == a and F == nil (everything else unknown), every path through the
+	// validator records an error
+	isAppend := func(n *eng.GNode) bool {
 		as, ok := n.Node.(*ast.AssignStmt)
 		if !ok || len(as.Rhs) != 1 {
-			continue
+			return false
 		}
 		cl, isC := ast.Unparen(as.Rhs[0]).(*ast.CallExpr)
 		if !isC {
-			continue
+			return false
 		}
-		if o := eng.CalleeOf(vinfo, cl); o == nil || o.Name() != "Append" {
-			continue
-		}
-		// the rejection must be unconditional for the pair: the enclosing `if` is not nested in another branch and its
-		// condition consists of exactly the two atoms (an extra conjunct such as `&& op.Group == ""` narrows the check)
-		chain := eng.EnclosingStmts(v.Decl.Body, as.Pos())
-		nIf, atoms := 0, 0
-		for _, st := range chain {
-			switch t := st.(type) {
-			case *ast.IfStmt:
-				nIf++
-				atoms = countConjuncts(t.Cond)
-				if t.Else != nil && as.Pos() >= t.Else.Pos() {
-					nIf += 10
-				}
-			case *ast.ForStmt, *ast.RangeStmt, *ast.SwitchStmt, *ast.SelectStmt, *ast.TypeSwitchStmt:
-				nIf += 10
-			}
-		}
-		if nIf != 1 || atoms != 2 {
-			continue
-		}
-		for _, pr := range condPairs(vg, vinfo, n, action, nil, true) {
-			enforced[pr] = true
+		o := eng.CalleeOf(vinfo, cl)
+		return o != nil && o.Name() == "Append"
+	}
+	nAppend := 0
+	for _, n := range vg.Nodes {
+		if isAppend(n) {
+			nAppend++
 		}
 	}
-	if len(enforced) == 0 {
-		r.Unknown(v.Key+" enforced pairs", v.Decl.Pos(), "no `Action == k && field == nil -> error` pattern recognised in the validator")
+	if nAppend == 0 {
+		r.Unknown(v.Key+" enforced pairs", v.Decl.Pos(), "the validator records no error (no multierror.Append found)")
 		return
 	}
+	memo := map[actionField]bool{}
+	enforcedFn := func(pr actionField) bool {
+		if got, has := memo[pr]; has {
+			return got
+		}
+		assumed := func(fc eng.Fact) bool {
+			x, y, eq, ok := eng.EqAtom(fc)
+			if !ok {
+				return false
+			}
+			for i := 0; i < 2; i++ {
+				if eng.IsField(vinfo, x, action) {
+					if k, isC := eng.ConstStr(vinfo, y); isC {
+						return (k == pr.action) == eq
+					}
+				}
+				if s, isS := ast.Unparen(x).(*ast.SelectorExpr); isS && eng.IsNil(vinfo, y) {
+					if fv, isV := vinfo.Uses[s.Sel].(*types.Var); isV && fv.IsField() && fv.Name() == pr.field {
+						return eq
+					}
+				}
+				x, y = y, x
+			}
+			return false
+		}
+		bad := vg.MustPassToExit(eng.Query{FromEntry: true, Assume: assumed, AvoidEdge: vg.Infeasible(assumed)}, isAppend)
+		memo[pr] = bad == nil
+		return memo[pr]
+	}
+	enforced := enforcedFn
 	for _, key := range []string{pkgMStor + ".(*MetricStorage).sendBatchV0", pkgMStor + ".(*MetricStorage).applyGroupOperations", pkgMStor + ".(*MetricStorage).ApplyOperation"} {
 		f := r.NeedFunc(key)
 		if f == nil {
@@ -560,7 +574,7 @@ func runC16R9(c *eng.Ctx, r *eng.RuleCtx) {
 			}
 			for _, pr := range condPairs(g, info, n, action, nil, false) {
 				construct := fmt.Sprintf("%s action=%s requires %s", f.Key, pr.action, pr.field)
-				r.Check(enforced[pr], construct, n.Node.Pos(), "enforced by ValidateMetricOperation",
+				r.Check(enforced(pr), construct, n.Node.Pos(), "enforced by ValidateMetricOperation",
 					fmt.Sprintf("the arm that applies action '%s' runs only when %s is set, but ValidateMetricOperation accepts the operation without it: the batch passes validation, is partly applied and then fails (or the operation is silently skipped)", pr.action, pr.field))
 			}
 		}
